@@ -66,8 +66,8 @@ import tempfile
 
 import pywbem
 import pywbem_mock
-from pywbem import (CIMClass, CIMClassName, CIMInstance, CIMInstanceName, CIMProperty, CIMQualifier,
-                    CIMQualifierDeclaration, CIMError, Uint32, Uint16, Uint8)
+from pywbem import (CIMClass, CIMInstance, CIMInstanceName, CIMProperty, CIMQualifier,
+                    CIMQualifierDeclaration, CIMError, Uint32)
 
 from mc.core import Acc, HarnessError
 from mc.objdump import dump as odump
@@ -117,12 +117,16 @@ BOUNDS = {
         macro_steps_left_out=[['schema0', NSB], ['inst', NSB, 'TST_A'], ['inst', NSB, 'TST_Sub'],
                               ['inst', DEFNS, 'TST_B'], ['assoc', NSB]],
         fillers=['Q', 'C', 'I'], extra_reasons=False,
-        # batch length (fillers + the invalid production) by depth of the start state
-        batch_len_by_start_depth={0: 3, 1: 3}),
+        # batch length (fillers + the invalid production) by depth of the start state, per API
+        batch_len_by_start_depth={
+            'compile_mof_string': {'0': 3, '1': 3}, 'compile_mof_file': {'0': 3, '1': 3},
+            'compile_schema_classes': {'0': 3, '1': 3}, 'add_cimobjects': {'0': 3, '1': 3}}),
     'thorough': dict(
         _COMMON, start_depth=3, macro_steps_left_out=[],
         fillers=['Q', 'C', 'S', 'I'], extra_reasons=True,
-        batch_len_by_start_depth={0: 4, 1: 4, 2: 3}),
+        batch_len_by_start_depth={
+            'compile_mof_string': {'0': 4, '1': 4, '2': 3}, 'compile_mof_file': {'0': 4, '1': 4},
+            'compile_schema_classes': {'0': 4, '1': 4}, 'add_cimobjects': {'0': 4, '1': 4, '2': 3}}),
 }
 
 # ------------------------------------------------------------------------------------------
@@ -359,6 +363,9 @@ def assoc_inst(ns_a, ns_b, id_a=1, id_b=1, note=None, host=None, with_b=True):
     if with_b:
         props.append(CIMProperty('b', ipath('TST_B', id_b, ns_b), type='reference',
                                  reference_class='TST_B'))
+    if with_b:
+        # the non-key reference c points to the same instance as a
+        props.append(CIMProperty('c', ipath('TST_A', id_a, ns_a), type='reference', reference_class='TST_A'))
     if note is not None:
         props.append(CIMProperty('note', note, type='string'))
     return CIMInstance('TST_AB', props)
@@ -1048,7 +1055,7 @@ def usable_fillers(acc, st, api, pool):
 def run_batch(acc, st, api, reasons, tier, fref):
     b = BOUNDS[tier]
     pool = usable_fillers(acc, st, api, b['fillers'])
-    sels = filler_selections(pool, b['batch_len_by_start_depth'][st['depth']])
+    sels = filler_selections(pool, _batch_len(tier, api, st))
     for reason in reasons:
         # the invalid production alone decides whether the reason is live in this state
         res = run_batch_case(acc, st, api, reason, [], 0, fref)
@@ -1434,28 +1441,42 @@ def run_single_case(acc, st, cid, fref):
 # ------------------------------------------------------------------------------------------
 # framework entry points
 
-MOF_APIS = ['compile_mof_string', 'compile_mof_file', 'compile_schema_classes']
+def _batch_len(tier, api, st):
+    return BOUNDS[tier]['batch_len_by_start_depth'][api].get(str(st['depth']))
 
 
-def _batch_states(tier):
-    b = BOUNDS[tier]
-    return [s for s in start_states(b['start_depth'], tier) if s['depth'] in b['batch_len_by_start_depth']]
+def _batch_cost(nfill, maxlen, nreasons):
+    """number of batch cases for one (state, api)"""
+    n, perm = 0, 1
+    for ln in range(1, maxlen + 1):          # ln - 1 fillers, ln positions
+        n += perm * ln
+        perm *= max(nfill - (ln - 1), 0)
+    return n * nreasons
 
 
 def plan(tier, seed):
     b = BOUNDS[tier]
     states = start_states(b['start_depth'], tier)
-    index = {s['key']: i for i, s in enumerate(states)}
+    units = []                               # (check, api, state index, cost)
+    for i, st in enumerate(states):
+        units.append(('single', None, i, len(single_cases())))
+    for api in b['batch_apis']:
+        nre = len(batch_reasons(api, tier))
+        for i, st in enumerate(states):
+            ln = _batch_len(tier, api, st)
+            if ln:
+                units.append(('batch', api, i, _batch_cost(len(b['fillers']), ln, nre)))
+    cap = max(sum(u[3] for u in units) / 180.0, 1)
     shards = []
-    per = 2 if tier == 'quick' else 6
-    for i in range(0, len(states), per):
-        shards.append(dict(check='single', states=list(range(i, min(i + per, len(states))))))
-    for s in _batch_states(tier):
-        for api in b['batch_apis']:
-            reasons = batch_reasons(api, tier)
-            half = (len(reasons) + 1) // 2
-            for part in (reasons[:half], reasons[half:]):
-                shards.append(dict(check='batch', api=api, states=[index[s['key']]], reasons=part))
+    cur = None
+    for check, api, i, cost in units:
+        if cur is None or (cur['check'], cur.get('api')) != (check, api) or cur['cost'] + cost > cap * 1.2:
+            cur = dict(check=check, states=[], cost=0)
+            if api:
+                cur['api'] = api
+            shards.append(cur)
+        cur['states'].append(i)
+        cur['cost'] += cost
     return shards
 
 
@@ -1475,7 +1496,7 @@ def run_shard(shard, tier):
                     acc.samples.append(dict(start_history=st['history'], single_case=cid,
                                             call=single_cases()[cid]['text'], verdict=res))
         else:
-            run_batch(acc, st, shard['api'], shard['reasons'], tier, fref)
+            run_batch(acc, st, shard['api'], batch_reasons(shard['api'], tier), tier, fref)
     return acc
 
 
